@@ -23,6 +23,7 @@ RULE = ("cases = (a) second counts n (integers over +-1e11 with boundary "
         "daylight flag x is-dst x alternative offsets, via a mocked time "
         "module, plus POSIX TZ strings through tzset(); non-trivial = n != 0 "
         "/ a non-UTC point / a non-zero offset; distinct by the case tuple")
+RUN_REPO_SUITE = True   # thorough tier: repo tests under these monitors
 DECIDING = ["from_epoch.post", "to_epoch.post", "local_zone.post",
             "local_format.post", "local_carry"]
 MIN_EVALS = {"from_epoch.post": 1500, "to_epoch.post": 2500,
@@ -82,6 +83,11 @@ def install(ctx, repo, probes):
     def post_from(snap, args, kwargs, p, exc):
         n = args[0]
         utc = args[1] if len(args) > 1 else kwargs.get("utc", False)
+        if isinstance(n, str):
+            try:
+                n = float(n.replace(",", "."))
+            except ValueError:
+                return
         ctx.ev("from_epoch.post")
         if exc is not None:
             ctx.violation("from_epoch.raised", "from epoch(%r, utc=%r) raised "
